@@ -26,6 +26,8 @@ def correspondence(ctx):
         for f1 in fill:
             for f2 in fill:
                 cases.append(f'prof|op|enforce|f|b|{hexs([f1, z, f2])}|')
+    for s_ in long_strings(ctx, FREE_ALPHA, (60 if ctx.tier == 'quick' else 3000)):
+        cases.append(f'prof|op|enforce|f|b|{hexs(s_)}|')
     # every code point at which any table-driven behaviour changes, alone and next to an ASCII letter
     bc = boundary_cps(ctx, None if ctx.tier == 'quick' else 11)
     corr.count('boundary_code_points', len(bc))
